@@ -51,13 +51,17 @@ fn js_decode(body: &str) -> Option<String> {
 
 /// the message literal of `.min(1, { message: "..." })` in a schema text
 fn message_literal(schema: &str) -> Option<&str> {
-    let start = schema.find("{ message: \"")? + "{ message: \"".len();
-    let rest = &schema[start..];
+    // the literal may be written with any of JavaScript's three quote characters
+    let key = schema.find("message:")? + "message:".len();
+    let after = schema[key..].trim_start();
+    let q = after.chars().next()?;
+    if q != '"' && q != '\'' && q != '`' { return None; }
+    let rest = &after[1..];
     let mut esc = false;
     for (i, ch) in rest.char_indices() {
         if esc { esc = false; continue; }
         if ch == '\\' { esc = true; continue; }
-        if ch == '"' { return Some(&rest[..i]); }
+        if ch == q { return Some(&rest[..i]); }
     }
     None
 }
